@@ -183,11 +183,11 @@ theorem val_neg_all (x : F64) : (F64.neg x).val = -x.val := by
   | inf s => simp [F64.neg, F64.val, F64.toDy, Dy.val]
   | fin s m e => exact F64.neg_fin_val s m e
 
-/-- the value held by an accumulator -/
-def held (a : Acc) : ℚ := a.s.val + a.t.val
+/-- the value heldQ by an accumulator -/
+def heldQ (a : Acc) : ℚ := a.s.val + a.t.val
 
-theorem held_negate (a : Acc) : held (negate a) = - held a := by
-  simp only [held, negate, val_neg_all]; ring
+theorem heldQ_negate (a : Acc) : heldQ (negate a) = - heldQ a := by
+  simp only [heldQ, negate, val_neg_all]; ring
 
 
 
